@@ -194,6 +194,12 @@ def run(tier):
             v.reject(f"C04:{r['_label']}",
                      {'label': r['_label'], 'mode': r['mode'],
                       'failed_clauses': rejects[r['id']]})
+    def _corrupt(r):
+        if r['mode'] != 'all' or r['n'] > 5:
+            return None
+        r['suc'][1] = 1 - r['suc'][1]
+        return r
+    common.binding_selftest('c04', 'C04_Data', recs, _corrupt)
     rc = v.finish()
     n_all = sum(r['_nobs'] for r in recs if r['mode'] == 'all')
     n_some = sum(r['_nobs'] for r in recs if r['mode'] == 'some')
